@@ -19,6 +19,9 @@
 //     fatal stack trace); the six "critical" patterns go to EVERY offset of every pack/step/record
 //     encoding, the rest is spread within a budget; for corrupted values the model's outcome and
 //     allocation units are compared as well;
+//     plus a structured family of NESTING BOMBS (nested.go): lists in lists, maps of lists, composite
+//     packs in composite packs, lists of text arrays, 1–64 KiB, every count claiming the bytes that
+//     remain — a per-level allocation sized from the count is quadratic and breaks the same bound;
 //  4. the witnesses of the Lean `finding_*` theorems are replayed on the implementation; the documented exception (SMBasePack older-version tail) is exercised.
 package main
 
@@ -365,6 +368,7 @@ func main() {
 
 	prefixSweep(env, rep, rng, encs)
 	hostileSweep(env, rep, rng, encs, self)
+	nestedSweep(env, rep, rng, self)
 	witnesses(env, rep, self)
 	olderVersion(env, rep, rng)
 	rep.Write(env.Out)
